@@ -67,9 +67,15 @@ def float_text(rng):
 ESCAPE_LOOKALIKES = ["\\u0041", "\\n", "\\\\", "a\\tb", "\\\"", "\\u00e9x", "\\\\u0041", "\\u005Cn", "x\\", "\\/"]
 
 
+# surrogate code units are characters of their own in a June-2018 document, raw or escaped, alone or in pairs
+SURROGATE_VALUES = ["\ud83d\ude00", "\ud83d", "\ude00x", "a\udc00\ud800", "\ud83d\ude00\ud83d\ude00", "\ud83d \ude00"]
+
+
 def string_value(rng, maxlen=8, hostile=True):
     if hostile and rng.random() < 0.12:
         return rng.choice(ESCAPE_LOOKALIKES)
+    if hostile and rng.random() < 0.05:
+        return rng.choice(SURROGATE_VALUES)
     n = rng.choice([0, 0, 1, 1, 2, 3, maxlen])
     chars = []
     for _ in range(rng.randint(0, n) if n else 0):
